@@ -5,7 +5,7 @@ cd "$(dirname "$0")"
 OUT=/verif/.build/ocaml
 mkdir -p "$OUT"
 rm -rf "$OUT/src"; mkdir -p "$OUT/src"
-cp gen/*.ml gen/*.mli conv.ml driver.ml "$OUT/src/"
+cp gen/*.ml gen/*.mli conv.ml util.ml driver.ml "$OUT/src/"
 cd "$OUT/src"
 # dependency order from ocamldep
 ORDER=$(ocamlfind ocamldep -sort *.mli *.ml)
